@@ -63,6 +63,8 @@ type KDC struct {
 	TicketLifetime  time.Duration
 	ServiceLifetime time.Duration // lifetime of service tickets (0 = TicketLifetime)
 	RenewLifetime   time.Duration
+	UDPTooBig       bool                                     // every UDP request is answered KRB_ERR_RESPONSE_TOO_BIG: the client must come back over TCP
+	HintOrder       int                                      // with ExtraHints: 0 = INFO2, INFO, PW-SALT; 1 = INFO, INFO2, PW-SALT; 2 = PW-SALT, INFO, INFO2 (the order is not significant)
 	ExtraHints      bool                                     // PREAUTH_REQUIRED / FAILED e-data also carries ETYPE-INFO (another etype first) and PW-SALT after ETYPE-INFO2
 	Backdate        time.Duration                            // initial tickets carry an authtime/starttime this far in the past
 	Referrals       map[string]string                        // service host suffix -> next realm (referral TGT krbtgt/NEXT@Realm)
@@ -266,6 +268,12 @@ func (k *KDC) handleAS(raw []byte) []byte {
 		}
 		ei, _ := asn1.Marshal(types.ETypeInfo{{EType: other, Salt: []byte("other-salt")}, {EType: et, Salt: []byte(defaultSalt(k.Realm, cl.Name))}})
 		info = append(info, types.PAData{PADataType: 11, PADataValue: ei}, types.PAData{PADataType: 3, PADataValue: []byte("pw-salt-hint")})
+		switch k.HintOrder {
+		case 1: // ETYPE-INFO, ETYPE-INFO2, PW-SALT
+			info[0], info[1] = info[1], info[0]
+		case 2: // PW-SALT, ETYPE-INFO, ETYPE-INFO2
+			info[0], info[2] = info[2], info[0]
+		}
 	}
 	if k.RequirePreauth && ts == nil {
 		ed, _ := asn1.Marshal(info)
@@ -570,6 +578,11 @@ func (k *KDC) serveUDP() {
 			return
 		}
 		req := append([]byte{}, buf[:n]...)
+		if k.UDPTooBig {
+			// RFC 4120 7.2.1: the reply does not fit a datagram - retry over TCP
+			k.udp.WriteToUDP(krbErr(k.Realm, types.PrincipalName{NameType: 2, NameString: []string{"krbtgt", k.Realm}}, 52, nil), addr)
+			continue
+		}
 		go func() {
 			if out := k.Handle(req); out != nil {
 				k.udp.WriteToUDP(out, addr)
